@@ -476,6 +476,9 @@ def run_scenario(scen, chooser_factory, max_steps=4000, observe=True):
                         "mw": getattr(info["ref"](), "_max_workers", None),
                         "started": getattr(info["ref"](), "_executor_manager_thread", None) is not None,
                         "feeder": getattr(info["cq"], "_thread", None) is not None,
+                        "feeder_started": getattr(getattr(info["cq"], "_thread", None), "_actor", None) is not None,
+                        "tstarting": sorted(a.name for a in eng.actors.values()
+                                            if a.pending is not None and a.pending.kind == "tstart"),
                         "nextpid": eng.next_pid})
         o["ex"] = exs
         o["in_body"] = sorted((a.name, a.in_body) for a in eng.actors.values()
